@@ -262,6 +262,18 @@ def side_case(seed):
         He = np.array([[float(f.partial2(t, i, j)) for j in range(dim)] for i in range(dim)])
         if not rel_close(H, He, 1e-12):
             return 'hessian is not the matrix of second partials', desc
+    # several objects on the same grid: a second B-spline with the same knots and degree but other coefficients (the
+    # members of a spline basis) has its own derivative
+    if fam == 'Bspline':
+        coeff2 = [rng.uniform(-1, 1) for _ in range(f.n + f.degree)]
+        try:
+            f2 = tdt.Bspline(index, np.array(f.knots), f.degree, coeff2, dim)
+            got = float(f2.partial(t, index))
+            exp = num_diff(lambda s_: float(f2(s_)), t, index, h)
+        except Exception as e:
+            return 'second Bspline on the same knots raised %r' % (e,), desc
+        if not rel_close(got, exp, 1e-5):
+            return 'partial of a second Bspline on the same knots = %r, numerical derivative %r' % (got, exp), desc
     # the same on fresh objects built WITHOUT the dimension (it is then taken from the first point seen), gradient resp.
     # Hessian being the very first call
     for name, ref in (('gradient', g),) + ((('hessian', H),) if has_p2 else ()):
